@@ -56,6 +56,12 @@ def make_backend(name, w, yield_events=False):
     if name == 'dict':
         from slimta.queue.dict import DictStorage
         return DictStorage(), None
+    if name == 'shelf':
+        # the documented persistent variant of the dict backend: real shelve.Shelf objects (every value is pickled on
+        # assignment and unpickled afresh on every access) over in-memory dicts
+        import shelve
+        from slimta.queue.dict import DictStorage
+        return DictStorage(shelve.Shelf({}), shelve.Shelf({})), None
     if name == 'disk':
         import slimta.diskstorage as ds
         from engine import memfs
@@ -429,16 +435,76 @@ def index_forms(backend, res):
                           % (name, mk() if name != 'range' else list(mk()), got.get('rcpts'), exp), {'backend': backend, 'forms': True})
 
 
+# ---- short aio completions (disk)
+SHORT_HISTORIES = [
+    [('write', 'A')],
+    [('write', 'A'), ('inc', 'A')],
+    [('write', 'A'), ('dlv', 'A', (1, 2)), ('ts', 'A', T2)],
+    [('write', 'A'), ('write', 'B'), ('inc', 'B'), ('rm', 'A')],
+]
+
+
+def short_io_case(hist, res, d):
+    """the history on DiskStorage where every aio write/read may complete for fewer bytes than requested (all, half, one):
+    all placements of <= d short completions; the final observation must equal the reference store"""
+    bad = []
+
+    def run(ch):
+        out = []
+        with World(ch, uuid_modules=UUID_MODULES, max_steps=200000) as w:
+            st, fs = make_backend('disk', w)
+            fs.short_chooser = ch
+            ids = {}
+
+            def body():
+                for op in hist:
+                    try:
+                        r = do_op(st, op, ids)
+                    except BaseException as e:
+                        r = ('raised', type(e).__name__, str(e)[:80])
+                    out.append((r, None))
+                fs.short_chooser = None
+                out[-1] = (out[-1][0], observe(st, ids))
+            g = gevent.spawn(body)
+            w.run_until_quiescent()
+            if not g.dead:
+                out.append((('blocked',), {}))
+        if len(out) == len(hist):
+            # judge only the final observation (judge_last looks at the last entry)
+            viols, _ = judge_last('disk', list(hist), out, ids)
+        else:
+            viols = [({'kind': 'operation-blocked', 'op': hist[-1][0]}, 'history %r with short aio completions: an operation never returned' % (hist,))]
+        for sig, msg in viols:
+            bad.append((sig, msg + ' [short aio completions, choices %r]' % (list(ch.choices),), list(ch.choices)))
+        return repr(out[-1])
+    st = explore(run, d=d, dd=None, merge=False, max_exec=20000)
+    res.evaluations += st.executions
+    res.transitions += st.transitions
+    res.count('short_io_executions', st.executions)
+    if st.cap_hit:
+        res.caps.append('short-io ' + st.cap_hit)
+    res.interesting(('short-io', tuple(hist)))
+    seen = set()
+    for sig, msg, choices in bad:
+        k = sig['kind']
+        if k in seen:
+            continue
+        seen.add(k)
+        res.violation(dict(sig, backend='disk', io='short'), msg, {'backend': 'disk', 'short_io': [list(o) for o in hist], 'choices': choices, 'd': d})
+
+
 def configs(tier, seed):
     cfgs = []
     depth = 4 if tier == 'quick' else 5
-    for b in ('dict', 'disk', 'redis', 'cloud'):
+    for b in ('dict', 'shelf', 'disk', 'redis', 'cloud'):
         cfgs.append({'mode': 'bfs', 'backend': b, 'depth': depth})
     if tier == 'quick':
         for a, bb in ((('inc', 'A'), ('ts', 'B', T2)), (('write', 'A'), ('write', 'B')), (('dlv', 'A', (0,)), ('rm', 'B')), (('rm', 'A'), ('inc', 'B'))):
             cfgs.append({'mode': 'overlap', 'backend': 'disk', 'a': list(a), 'b': list(bb)})
         cfgs.append({'mode': 'overlap', 'backend': 'redis', 'a': ['inc', 'A'], 'b': ['dlv', 'B', [1, 2]]})
-    for b in ('dict', 'disk', 'redis', 'cloud'):
+    for i in range(len(SHORT_HISTORIES)):
+        cfgs.append({'mode': 'short-io', 'i': i, 'd': 1 if tier == 'quick' else 2})
+    for b in ('dict', 'shelf', 'disk', 'redis', 'cloud'):
         cfgs.append({'mode': 'forms', 'backend': b})
     for b in ('disk', 'redis', 'cloud'):
         for op in (('rm', 'B'), ('write', 'D'), ('inc', 'B'), ('ts', 'B', T2)):
@@ -460,6 +526,9 @@ def run_config(cfg, tier, seed):
         ks = sorted(seen)
         res.sample({'backend': cfg['backend'], 'a_history': [list(o) for o in seen[ks[len(ks) // 2]]], 'abstract_states': len(seen)})
         res.count('abstract_states', len(seen))
+    elif cfg['mode'] == 'short-io':
+        short_io_case(SHORT_HISTORIES[cfg['i']], res, cfg['d'])
+        res.sample({'backend': 'disk', 'short_aio_completions': SHORT_HISTORIES[cfg['i']], 'd': cfg['d']})
     elif cfg['mode'] == 'forms':
         index_forms(cfg['backend'], res)
         res.sample({'backend': cfg['backend'], 'index_forms': 9})
@@ -504,6 +573,12 @@ def replay(rep):
             return True, viols[0][1]
         return False, 'backend agrees with the reference store after %r' % (hist[-1],)
     res = Result()
+    if rep.get('short_io'):
+        tt = lambda op: tuple(tuple(x) if isinstance(x, list) else x for x in op)
+        short_io_case([tt(o) for o in rep['short_io']], res, rep.get('d', 1))
+        if res.violations:
+            return True, res.violations[0]['message']
+        return False, 'short aio completions do not change what the store holds'
     if rep.get('forms'):
         index_forms(rep['backend'], res)
         if res.violations:
